@@ -4,7 +4,8 @@ patch="$1"; shift
 cd /repo || exit 3
 if ! git diff --quiet; then echo "/repo has uncommitted changes"; exit 3; fi
 git apply "$patch" || exit 3
+rm -rf /tmp/evidence_keep.$$; cp -r /verif/evidence /tmp/evidence_keep.$$   # evidence files must come from the unchanged tree: restore them afterwards
 for p in "$@"; do
   (cd /verif && ./check "$p" 2>&1 | grep -v conda | grep -E "VIOLATION|UNDECIDED|CHECKER|exit [0-9]" | cut -c1-260 | awk 'NR<=6 || /exit [0-9]/')
 done
-git -C /repo checkout -- . ; git -C /repo status --short | head -3
+git -C /repo checkout -- . ; rm -rf /verif/evidence; mv /tmp/evidence_keep.$$ /verif/evidence; git -C /repo status --short | head -3
